@@ -354,6 +354,17 @@ func (endp *Endpoint) setupListeners(addresses []config.Endpoint) error {
 }
 
 func (endp *Endpoint) NewSession(conn *smtp.Conn) (smtp.Session, error) {
+	// go-smtp creates a new session for each EHLO/HELO/LHLO command but does
+	// not finish the previous one: abort its transaction and release what it
+	// holds, as on connection close.
+	if conn != nil {
+		if oldSess, ok := conn.Session().(*Session); ok && oldSess != nil {
+			if err := oldSess.Logout(); err != nil {
+				endp.Log.Error("previous session logout failed", err)
+			}
+		}
+	}
+
 	sess := endp.newSession(conn)
 
 	// Executed before authentication and session initialization.
